@@ -65,6 +65,8 @@ func main() {
 		os.Exit(runCheck(&o))
 	case "list":
 		os.Exit(runList(&o))
+	case "mapranges":
+		os.Exit(runMapRanges(&o))
 	case "loops":
 		os.Exit(runLoops(&o))
 	default:
@@ -260,4 +262,33 @@ func runLoops(o *Options) int {
 func atoiDefault(s string) int {
 	n, _ := strconv.Atoi(s)
 	return n
+}
+
+// runMapRanges lists every range-over-map loop of the module (C17 scan).
+func runMapRanges(o *Options) int {
+	p, err := loadAll(o)
+	if err != nil {
+		fmt.Fprintln(os.Stderr, "load:", err)
+		return 2
+	}
+	for _, k := range sortedKeys(p.byName) {
+		fn := p.byName[k]
+		if p.isGhostFn(fn) {
+			continue
+		}
+		for _, li := range findLoops(fn) {
+			if li.header.Comment == "rangeiter.loop" {
+				pos := ""
+				for _, in := range li.header.Instrs {
+					if in.Pos().IsValid() {
+						pp := p.fset.Position(in.Pos())
+						pos = fmt.Sprintf("%s:%d", strings.TrimPrefix(pp.Filename, p.repo+"/"), pp.Line)
+						break
+					}
+				}
+				fmt.Printf("%s loop %d %s\n", k, li.ord, pos)
+			}
+		}
+	}
+	return 0
 }
